@@ -1,7 +1,9 @@
 """C12 configuration for bin/check."""
 
 CFG = {
-        "tier_a": [],
+        "tier_a": ["ProofChkFacts.justification_kinds", "ProofChkFacts.checker_arms", "ProofChkFacts.action_arms",
+                   "ProofChkFacts.fact_arms", "ProofChkFacts.eval_props_arms", "ProofChkFacts.eval_term_arms",
+                   "ProofChkFacts.ctx_new_shape", "ProofChkFacts.run_merge_shape", "ProofChkFacts.rule_produces_shape"],
         "model_targets": ["ProofChk/Checker.vo"],
         "proof_targets": ["Props/C12.vo"],
         "harness": [{"bin": "h_proofs", "prefix": "cases_proofs"}],
